@@ -24,7 +24,7 @@ static int count_lines(const SLogger& l) { return l._written.load(); }
 int main(int argc, char **argv)
 {
   const int lines = argc > 1 ? atoi(argv[1]) : 2; const char *want = argc > 2 ? argv[2] : "any";
-  for (int i = 3; i < argc; ++i) { std::string t; for (const char *p = argv[i]; p[0] && p[1]; p += 2) { unsigned b; sscanf(p, "%2x", &b); t += char(b); } g_texts.push_back(t); }
+  for (int i = 3; i < argc; ++i) { std::string t; if (strcmp(argv[i], "-")) for (const char *p = argv[i]; p[0] && p[1]; p += 2) { unsigned b; sscanf(p, "%2x", &b); t += char(b); } g_texts.push_back(t); }
   int bad = 0;
   if (strstr(want, "ret") || !strcmp(want, "any"))
   {
